@@ -573,6 +573,87 @@ theorem store_ops_run_under_mutex :
     O4.Facts.Scramblesuit.ssTicketStore_getTicket_prelock = [] ∧
     O4.Facts.Scramblesuit.ssTicketStore_storeTicket_prelock = [] := by decide
 
+/-! ## `Read` and errors of the underlying conn -/
+
+
+/-- **The error surfaces only when nothing decoded is left** (repaired `Read`), for every state,
+    every script of underlying reads (data and errors in one read included) and every buffer size. -/
+theorem read_error_only_when_drained (P : Prims) (k : DirKeys) (n : Nat) (s : ConnRd) (script : List NetRead)
+    (s' : ConnRd) (d : Bytes) (e : RdErr) (rest : List NetRead)
+    (h : ConnRd.read P k n s script = some (s', d, some e, rest)) : d = [] ∧ s'.dec = [] := by
+  induction script generalizing s with
+  | nil =>
+    unfold ConnRd.read at h
+    split at h
+    · cases h
+    · rename_i hd
+      have hd' : s.dec = [] := Decidable.of_not_not hd
+      split at h
+      · simp only [Option.some.injEq, Prod.mk.injEq] at h
+        obtain ⟨rfl, rfl, _, _⟩ := h
+        exact ⟨rfl, hd'⟩
+      · cases h
+  | cons r rs ih =>
+    unfold ConnRd.read at h
+    split at h
+    · cases h
+    · rename_i hd
+      have hd' : s.dec = [] := Decidable.of_not_not hd
+      split at h
+      · simp only [Option.some.injEq, Prod.mk.injEq] at h
+        obtain ⟨rfl, rfl, _, _⟩ := h
+        exact ⟨rfl, hd'⟩
+      · split at h
+        · cases h
+        · rename_i r' rest' heq
+          cases heq
+          split at h
+          · split at h
+            · cases h
+            · rename_i hd2
+              simp only [Option.some.injEq, Prod.mk.injEq] at h
+              obtain ⟨rfl, rfl, _, _⟩ := h
+              exact ⟨rfl, Decidable.of_not_not hd2⟩
+          · exact ih _ h
+
+/-- **A read error keeps the buffer**: the call that receives data TOGETHER with an error hands out
+    the decoded bytes without an error and remembers the error. -/
+theorem read_error_keeps_buffer (P : Prims) (k : DirKeys) (n : Nat) (s : ConnRd) (r : NetRead) (rest : List NetRead)
+    (s1 : ConnRd) (e : RdErr) (hd : s.dec = []) (he : s.err = none)
+    (hr : s.readPackets P k r = (s1, some e)) (hne : s1.dec ≠ []) :
+    ConnRd.read P k n s (r :: rest)
+      = some ({ s1 with dec := s1.dec.drop n, err := some e }, s1.dec.take n, none, rest) := by
+  unfold ConnRd.read
+  simp [hd, he, hr, hne]
+
+/-- **Nothing lost**: once the stream has ended with error `e`, a reader with ANY buffer size `n ≥ 1`
+    that stops at the first error gets exactly every decoded byte still buffered, then `e`. -/
+theorem read_drains_before_error (P : Prims) (k : DirKeys) (n : Nat) (hn : 0 < n) (e : RdErr) : ∀ (fuel : Nat) (s : ConnRd),
+    s.err = some e → s.dec.length < fuel →
+    readAll (ConnRd.read P k n) fuel s [] = (s.dec, some e) := by
+  intro fuel
+  induction fuel with
+  | zero => intro s _ h; omega
+  | succ f ih =>
+    intro s he hl
+    by_cases hd : s.dec = []
+    · simp [readAll, ConnRd.read, hd, he]
+    · have hpos : 0 < s.dec.length := List.length_pos_iff.mpr hd
+      have := ih { s with dec := s.dec.drop n } he (by simp only [List.length_drop]; omega)
+      simp only [readAll, ConnRd.read, hd, ne_eq, not_false_eq_true, ↓reduceIte, this, List.take_append_drop]
+
+/-- the code BEFORE the repair: when the decoded payload of the call that also got the error is
+    larger than the caller's buffer, the error comes with the first `n` bytes and a reader that
+    stops there has lost the rest (replay corpus/C15/read-error-with-decoded-bytes-buffered-*.json) -/
+theorem old_read_drops_bytes (P : Prims) (k : DirKeys) (n : Nat) (s : ConnRd) (r : NetRead) (rest : List NetRead)
+    (s1 : ConnRd) (e : RdErr) (hd : s.dec = []) (hr : s.readPackets P k r = (s1, some e)) (hlt : n < s1.dec.length) :
+    ∃ s2, ConnRd.readOld P k n s (r :: rest) = some (s2, s1.dec.take n, some e, rest) ∧ s2.dec ≠ [] ∧
+      (readAll (ConnRd.readOld P k n) (s1.dec.length + 2) s (r :: rest)).1.length < s1.dec.length := by
+  refine ⟨{ s1 with dec := s1.dec.drop n }, by simp [ConnRd.readOld, hd, hr], ?_, ?_⟩
+  · intro h; have := congrArg List.length h; simp at this; omega
+  · simp [readAll, ConnRd.readOld, hd, hr, List.length_take]; omega
+
+
 /-! ## the handshake timeout, the padding sampler under concurrency -/
 
 theorem armedAfter_append_clear (t : List ConnEv) (a : Bool) : armedAfter (t ++ [.clear]) a = false := by
